@@ -43,7 +43,7 @@ func (P) Engine() string { return "E1" }
 
 func (P) Describe() harness.Description {
 	return harness.Description{
-		MustHit: []string{"request_for_a_resource_without_outlier_rule", "same_instant_timers_ordered_by_seed", "node_filtered", "filter_capped_by_percentage", "node_half_open", "node_recycled", "node_kept_after_success", "active_recovery_check_ran"},
+		MustHit: []string{"rule_reloaded_with_another_recycle_interval", "request_for_a_resource_without_outlier_rule", "same_instant_timers_ordered_by_seed", "node_filtered", "filter_capped_by_percentage", "node_half_open", "node_recycled", "node_kept_after_success", "active_recovery_check_ran"},
 		Level:   "exploration",
 		Rule: "case = (1-12 nodes, MaxEjectionPercent k/100 or k/1000 incl. 0 and 1, active recovery on (scripted RecoveryCheckFunc) or off, recycle interval 1-5 s, recovery interval, per-node breaker rule (error count / error ratio, retry timeout 200-3000 ms, probe number 0-1); 20-120 ops: request (choose a node, duration, success or failure), advance fake time). Chain = default slots + the real outlier slots; the recycler / retryer workers, their channels and timers live inside the bubble; after every step the driver waits for quiescence. " +
 			"Oracle at every request: FilterNodes has no duplicates and is a subset of the nodes the per-node reference breaker rejects now; |FilterNodes| <= floor(k*n/den) in integer arithmetic with n = known nodes; HalfOpenNodes == nodes in passive half-open probing (none with active recovery); a node that completed a request successfully since it was scheduled for recycling is still known after the recycle interval, and no unknown node appears. " +
@@ -81,7 +81,10 @@ func (P) Gen(rng *sim.Rng, tier string) *harness.Case {
 	}
 	var ops []harness.Op
 	for n := rng.Range(20, 120); len(ops) < n; {
-		if rng.Chance(0.08) {
+		if rng.Chance(0.04) {
+			// the rule is loaded again with another recycle interval (everything else, the breaker rule included, unchanged)
+			ops = append(ops, harness.Op{K: "reload", N: uint64([]int{1, 2, 5, 30, 3600}[rng.Intn(5)])})
+		} else if rng.Chance(0.08) {
 			// a request for another resource, one without an outlier rule, through the same slots (the next to
 			// use the pooled context of an earlier request)
 			ops = append(ops, harness.Op{K: "other"})
@@ -251,6 +254,23 @@ func (P) Exec(c *harness.Case) *harness.Outcome {
 			if o.Failed() || !processTimers(step) {
 				return o
 			}
+		case "reload":
+			if op.N == 0 || op.N > 1000000 {
+				continue
+			}
+			cfg.RecycleS = uint32(op.N)
+			nr := *rule
+			br := *rule.Rule
+			nr.Rule, nr.RecycleIntervalS = &br, cfg.RecycleS
+			harness.Call(o, "C20.panic", step, func() {
+				if _, err := outlier.LoadRules([]*outlier.Rule{&nr}); err != nil {
+					o.Fail("C20.load-error", step, "%v", err)
+				}
+			})
+			if o.Failed() {
+				return o
+			}
+			o.Probe("rule_reloaded_with_another_recycle_interval")
 		case "other":
 			var filter, half []string
 			harness.Call(o, "C20.panic", step, func() {
